@@ -59,8 +59,8 @@ func c20FileRead(bs uint32, nExt int) {
 		want = 0
 	}
 	// classes of the recorded findings
-	holeInRange := false   // some requested position is not mapped by any extent
-	afterExtent := false   // the offset lies, unaligned, in the block that follows the end of an extent
+	holeInRange := false // some requested position is not mapped by any extent
+	afterExtent := false // the offset lies, unaligned, in the block that follows the end of an extent
 	for i := 0; i < L; i++ {
 		pos := off + int64(i)
 		if int64(i) < want {
